@@ -687,7 +687,7 @@ def gen_sel(rng, n, col, depth=0):
     if r < 0.80:
         return ["slice", rng.choice([None, -1, 0, 0, 1, 2]), rng.choice([None, -1, 0, 0, 1, 2, 5]), rng.choice(["v", "w", "w"])]
     if r < 0.84:
-        # fractional bounds on an integer column (the model's ranges are integer-only: these lines are oracle-only)
+        # fractional bounds on an integer column (the model's general range selector, Sel.range)
         return ["slice", rng.choice([None, -1.5, -0.5, 0.5, 1.5]), rng.choice([None, -1.5, -0.5, 0.5, 2.5]), rng.choice(["v", "w", "w"])]
     if r < 0.94 or depth > 0:
         return ["slice", rng.choice([None, 0, 1, -2]), rng.choice([None, 1, 3, -1]), rng.choice([None, 1, 2, -1])]
@@ -787,11 +787,10 @@ def gen_c08(rng, sess):
     op0 = gen_table(rng, 7)
     zcol = rng.random() < 0.2
     if zcol:
-        # a float column with NaN / infinities: value ranges on it (lo <= z <= hi is false for NaN).  The model's ranges
-        # are over integer columns, so these histories are judged by the direct oracle only
+        # a float column with NaN / infinities: value ranges on it (lo <= z <= hi is false for NaN).  The model computes
+        # these too (Sel.range / valueRangeF, XModel/TableRangeF.lean): compared with the implementation like every other line
         n0 = len(op0["cols"][0][1])
         op0["cols"].append(["z", [{"f": rng.choice(["nan", "nan", "0.0", "-1.5", "2.0", "inf", "-inf", "1.0"])} for _ in range(n0)]])
-        sess.oracle_only_hist = True
     sess.step(op0)
     t = sess.pool[0]
     col = [str(x) for x in t._data["name"]]
@@ -803,8 +802,6 @@ def gen_c08(rng, sess):
                 sel = ["tuple", [sel, gen_sel(rng, len(col), col, 1)]]
         for kind in rng.sample(["indices", "mask", "rows"], rng.randint(1, 3)):
             o = add_matches({"op": kind, "sel": sel}, col)
-            if '.5' in json.dumps(sel):
-                o["oracle_only"] = True
             sess.step(o)
 
 
